@@ -24,7 +24,8 @@ REQUIRED_COUNTERS = ['parents_checked', 'fallback_parents',
                      'e2e_node_events_checked', 'expected_errors_seen',
                      'e2e_queries_with_marker_interior_shuffled',
                      'e2e_votes_recomputed_by_name',
-                     'e2e_queries_with_all_markers_beyond_column_255']
+                     'e2e_queries_with_all_markers_beyond_column_255',
+                     'tables_root_unusable_at_min_markers_zero']
 RULE = ('layer 1: generated (taxonomy, marker table, query gene set, '
         'min_markers, flatten / dropped level) fed to the real '
         'create_marker_cache_from_specified_markers, cache file read back; '
@@ -186,6 +187,20 @@ def make_layer1(rng):
         # query shares no marker with the table
         q = [f'zz{i}' for i in range(5)]
         klass = 'no-shared-marker'
+    elif r < 0.31:
+        # minimum of zero markers: nothing is ever patched, but a root
+        # whose (non-empty) list has no gene in the query is still an error
+        notq = [g for g in ref_genes if g not in set(q)]
+        inq = [g for g in ref_genes if g in set(q)]
+        if notq and inq:
+            min_markers = 0
+            table['None'] = [str(g) for g in notq[:3]]
+            for parent in model.all_parents():
+                if parent is None:
+                    continue
+                key = model.parent_key(parent)
+                table[key] = list(table.get(key, [])) + [str(inq[0])]
+            klass = 'root-unusable-min-markers-zero'
     flatten = bool(rng.random() < 0.2)
     drop = None
     if not flatten and d > 1 and rng.random() < 0.4:
@@ -253,6 +268,11 @@ def run_layer1(spec, work, counters, viol, feats):
         ctx = {'tree': red.to_dict(with_cells=False), 'table': tbl,
                'query_genes': q, 'min_markers': min_markers,
                'class': klass}
+        if klass == 'root-unusable-min-markers-zero' and \
+                len(red.children(None, None)) > 1:
+            counters['tables_root_unusable_at_min_markers_zero'] = \
+                counters.get('tables_root_unusable_at_min_markers_zero',
+                             0) + 1
         if want_error:
             counters['expected_errors_seen'] = counters.get(
                 'expected_errors_seen', 0) + (1 if err is not None else 0)
